@@ -14,11 +14,11 @@ TIERS = {
     'quick': dict(shards=8, max_dnas=6, family_stride=4, random=28, dnas=4,
                   iter_max=24, corrupt=2, max_nodes=45, history=6,
                   family_history=3, grid_stride=2, wrong_shapes=3, flagged=0.15,
-                  refs=4, reuse=5, timeout_s=600),
+                  refs=3, reuse=5, keys=2, timeout_s=600),
     'thorough': dict(shards=16, max_dnas=24, family_stride=1, random=190,
                      dnas=8, iter_max=60, corrupt=3, max_nodes=60, history=8,
                      family_history=3, grid_stride=1, wrong_shapes=4, flagged=0.15,
-                     refs=30, reuse=40, timeout_s=3000,
+                     refs=30, reuse=40, keys=24, timeout_s=3000,
                      case_timeout_s=300),
 }
 RULE = ('case = one template description (gen/templates.py) with a `where` '
@@ -44,7 +44,20 @@ RULE = ('case = one template description (gen/templates.py) with a `where` '
         'like the unflagged one. Part 3: the bounded grid of '
         'boundary bindings gen/templates.bound_grid (bound value x lower/upper x '
         'range end just outside / outside / on / inside x floatv / oneof / manyof; '
-        'every `grid_stride`-th one, rotated by the seed). DNAs: all members of spaces with <= '
+        'every `grid_stride`-th one, rotated by the seed). Part 4: `refs` templates per '
+        'shard with value references (pg.hyper.reference / ValueReference: relative '
+        'paths found in the holding container, an enclosing one or from the root, the '
+        'same key bound on several levels, inside lists / objects / candidates) whose '
+        'referents are placeholders with None, 0, \'\', False, 0.0, [] and {} among '
+        'their candidates, falsy constants or containers: the reference decoder puts '
+        'the value of the nearest scope in which the path exists. Part 5: `reuse` typed '
+        'containers per shard (pg.Dict / pg.List with a value spec, models.Bounds) whose '
+        'ONE placeholder object (oneof / manyof / floatv around the bounds) was offered '
+        'before to 1-3 other typed fields (equal / narrower / wider / other-typed spec; '
+        'constructor, item / attribute assignment, rebind, append, spec.apply, object '
+        'fields) that accepted or refused it: judged like a fresh binding (a range that '
+        'does not fit may be refused, else every member must decode inside the spec). '
+        'DNAs: all members of spaces with <= '
         '`dnas` members, else `dnas` reference-sampled members. Every DNA: '
         'decode twice, compare with the reference decoder, field rules, '
         'identity (no mutable object of a result is part of another result or '
@@ -79,6 +92,9 @@ REQUIRED_COUNTERS = ['spec_checks', 'decode_checks', 'reference_compared',
                      'history_ops', 'history_held_checks',
                      'history_redecode_checks', 'history_children',
                      'identity_checks', 'history_edits', 'encode_key_order_checks',
+                     'reference_templates', 'reference_decode_checks',
+                     'reference_falsy_checks', 'reuse_templates',
+                     'reuse_offer_refused', 'reuse_offer_accepted', 'key_templates',
                      'wrong_shape_encode_checks', 'flagged_templates',
                      'history_fresh_template_checks']
 ASSUMPTIONS = [
@@ -92,6 +108,8 @@ ASSUMPTIONS = [
     'a placeholder whose range is not inside the value spec of its field may be refused when it is bound (no template, nothing to check) and a refusal of a range that fits is reported as build-raised; int constants in float fields and floatv under noneable fields are not generated',
     'what encode / try_encode return or raise for a value that is not of the template\'s shape is not judged, only that the template is unchanged; which flags (sealed, accessor_writable, allow_partial) a decoded value carries is not judged, so an edit of a decoded value that the value refuses is skipped',
     'the genome encode gives for an evolvable value rebuilt with another dict key order may spell another key order (several genomes stand for equal values)',
+    'value references: a path is "searched from current node to root" (derived.py), so the scope is the nearest enclosing container in which the path exists, whatever value is found there; generated only where the template and every decoded value agree on that scope (no path through a placeholder, no reference to a value holding references, none inside multi-choice candidates or inside placeholders the filter leaves); ObjectTemplate(compute_derived=False) and dynamic evaluation leave references alone and are not used for them',
+    'a placeholder object that was offered to other typed fields before: when every earlier offer was refused it is bound to no spec and must be accepted by a field its range fits; after an accepted offer a refusal (bound to an incompatible spec) is not judged',
     'non-member DNAs (unsorted / repeated picks, index == number of candidates, float outside the range, wrong number of picks) must be rejected by decode: decode/encode can only be inverse bijections on the space',
 ]
 
@@ -130,7 +148,8 @@ def my_grid(ctx):
 
 def cases(ctx):
   return (len(my_part(ctx)) + len(my_grid(ctx)) + int(ctx.params['random'])
-          + int(ctx.params.get('refs', 0)) + int(ctx.params.get('reuse', 0)))
+          + int(ctx.params.get('refs', 0)) + int(ctx.params.get('reuse', 0))
+          + int(ctx.params.get('keys', 0)))
 
 
 # --------------------------------------------------------------------------
@@ -241,8 +260,13 @@ class Case:
 
   reused = False     # ReuseCase: the placeholder object was offered before
 
-  def __init__(self, T, W, plain, bad_size, entry, flags=None):
+  def __init__(self, T, W, plain, bad_size, entry, flags=None, key_class=None,
+               loc_T=None):
     self.T, self.W, self.plain, self.entry = T, W, plain, entry
+    # class of the unusual dict keys of the template (see `rename_keys`);
+    # loc_T: the same description with ordinary keys, from which the reference
+    # space takes the spelling of its locations (not compared then)
+    self.key_class = key_class
     # [kind, [path tokens of a container of the template value, ...]]: the
     # template value carries symbolic flags (see `apply_flags`)
     self.flags = flags
@@ -252,7 +276,7 @@ class Case:
         for p in TT.all_placeholders(T))
     # placeholder ranges that are not inside the value spec of their field
     self.misfit = sorted(set(TT.misfits(T)))
-    self.space = TT.to_space(T, W)
+    self.space = TT.to_space(loc_T or T, W)
     self.size = G.size(self.space)
     self.tops = TT.top_placeholders(T, W)
     self.root_choice = any(p == () for p, _ in self.tops)
@@ -285,6 +309,8 @@ class Case:
   def feature(self):
     """Coarse class of the template (harness facts) for failures that cannot
     be attributed to one placeholder."""
+    if self.key_class:
+      return 'dict-key:' + self.key_class
     if self.plain:
       return 'plain-container-root'
     if self.has_ref:
@@ -340,6 +366,189 @@ class Case:
     return self._dnas[m]
 
 
+# --------------------------------------------------------------------------
+# Re-use of a placeholder OBJECT: it is offered to typed fields (which accept
+# or refuse it, the caller handles a refusal) before it is put into the
+# container the template is made of.
+# --------------------------------------------------------------------------
+
+FINAL_SITES = ('dict-ctor', 'dict-setitem', 'dict-setattr', 'dict-rebind',
+               'list-ctor', 'list-append', 'list-setitem',
+               'object-ctor', 'object-rebind')
+PRIOR_SITES = FINAL_SITES + ('spec-apply', 'spec-apply')
+# typed fields of the models classes, by family of the placeholder
+OBJECT_FIELDS = {
+    'int': [('Bounds', 'i0'), ('Bounds', 'ip'), ('Typed', 'i'), ('Typed', 'n'),
+            ('Inner', 'p')],
+    'float': [('Bounds', 'z'), ('Bounds', 'nz'), ('Bounds', 'm'), ('Bounds', 'zi'),
+              ('Bounds', 'neg'), ('Typed', 'fl')],
+    'list': [('Bounds', 'lz'), ('Typed', 'l')],
+}
+REFUSAL = (ValueError, TypeError, KeyError)
+
+
+def valid_filler(s):
+  """A constant that the SPEC accepts."""
+  if s['s'] == 'any':
+    return 0
+  if s['s'] == 'list':
+    n = max(s['min'], 1)
+    if s['max'] is not None:
+      n = min(n, s['max'])
+    return [valid_filler(s['elem'])] * n
+  if s['none']:
+    return None
+  v = s['lo'] if s['lo'] is not None else s['hi'] if s['hi'] is not None else 0
+  return float(v) if s['s'] == 'float' else int(v)
+
+
+def bind(site, ph, s, target):
+  """Offers the placeholder object `ph` to a typed field (SPEC s, or the
+  field `target` = (class, field) of a models class); returns the container
+  that holds it now, or raises what the library raises."""
+  from pgverif import models as M  # pylint: disable=g-import-not-at-top
+  if site.startswith('object-'):
+    cls = getattr(M, target[0])
+    if site == 'object-ctor':
+      return cls(**{target[1]: ph})
+    o = cls()
+    o.rebind({target[1]: ph})
+    return o
+  spec = TT.real_spec(s)
+  if site == 'spec-apply':
+    return spec.apply(ph)
+  if site.startswith('dict-'):
+    vs = pg.typing.Dict([('x', spec), ('y', pg.typing.Any())])
+    if site == 'dict-ctor':
+      return pg.Dict({'x': ph, 'y': 'keep'}, value_spec=vs)
+    d = pg.Dict({'x': valid_filler(s), 'y': 'keep'}, value_spec=vs)
+    if site == 'dict-setitem':
+      d['x'] = ph
+    elif site == 'dict-setattr':
+      d.x = ph
+    else:
+      d.rebind(x=ph)
+    return d
+  vs = pg.typing.List(spec)
+  if site == 'list-ctor':
+    return pg.List([ph], value_spec=vs)
+  if site == 'list-append':
+    l = pg.List([], value_spec=vs)
+    l.append(ph)
+    return l
+  l = pg.List([valid_filler(s)], value_spec=vs)
+  l[0] = ph
+  return l
+
+
+def vary_spec(rng, s):
+  """A SPEC of the same shape as s: equal, narrower, wider, or of the other
+  numeric type."""
+  if s['s'] == 'list':
+    if rng.random() < 0.6:
+      return TT.spec_list(vary_spec(rng, s['elem']), s['min'], s['max'])
+    lo = rng.choice([0, s['min'], s['min'] + 1])
+    hi = rng.choice([None, s['max'], 2, 3])
+    if hi is not None and hi < lo:
+      hi = lo
+    return TT.spec_list(s['elem'], lo, hi)
+  is_int = s['s'] == 'int'
+  lo, hi, none = s['lo'], s['hi'], s['none']
+  step = rng.choice([1, 1, 2, 10]) if is_int else rng.choice([1e-9, 0.25, 0.5, 1.0])
+  r = rng.random()
+  if r < 0.3:
+    return dict(s)
+  if r < 0.65:                                  # narrower
+    if rng.random() < 0.5:
+      hi = (hi if hi is not None else (lo if lo is not None else 0) + 2 * step) - step
+    else:
+      lo = (lo if lo is not None else (hi if hi is not None else 0) - 2 * step) + step
+    if lo is not None and hi is not None and lo > hi:
+      lo = hi
+    return TT.spec_num(s['s'], lo, hi, none and rng.random() < 0.7)
+  if r < 0.87:                                  # wider
+    if rng.random() < 0.5:
+      hi = None if hi is None or rng.random() < 0.4 else hi + step
+    else:
+      lo = None if lo is None or rng.random() < 0.4 else lo - step
+    return TT.spec_num(s['s'], lo, hi, none or rng.random() < 0.3)
+  if is_int:
+    return TT.spec_num('float', lo, hi, none)
+  return TT.spec_num('int', None if lo is None else 0, None if hi is None else max(1, int(hi)), none)
+
+
+def reuse_plan(rng):
+  """(T, placeholder description, SPEC of its field, (final site, target),
+  [(earlier site, SPEC, target), ...])."""
+  st = TT.State(rng, tags=rng.random() < 0.3)
+  fam = rng.choice(['int', 'int', 'float', 'float', 'list'])
+  st.outside = rng.random() < 0.55
+  site = rng.choice(FINAL_SITES)
+  s, target = None, None
+  if site.startswith('object-'):
+    field = rng.choice({'int': ['i0', 'ip'], 'float': ['z', 'nz', 'm', 'zi', 'neg'],
+                        'list': ['lz']}[fam])
+    s, target = TT.CLASS_SPECS['Bounds'][field], ('Bounds', field)
+  if fam == 'int':
+    s, ph = TT.int_field(st, s)
+  elif fam == 'float':
+    s = s or TT.float_spec(rng, none=rng.random() < 0.1)
+    ph = TT.float_field(st, s)
+  else:
+    s, ph = TT.list_field(st, s)
+  if site.startswith('dict-'):
+    T = TT.tdict([['x', ph], ['y', TT.const('keep')]], {'x': s})
+  elif site.startswith('list-'):
+    T = TT.tlist([ph], elem=s)
+  else:
+    f = {k: TT.const(v) for k, v in TT.BOUNDS_DEFAULTS.items()}
+    f['lz'] = TT.tlist([])
+    f[target[1]] = ph
+    T = TT.tobj('Bounds', list(f.items()))
+  priors = []
+  for _ in range(rng.choice([1, 1, 2, 3])):
+    ps = rng.choice(PRIOR_SITES)
+    if ps.startswith('object-'):
+      priors.append((ps, None, rng.choice(OBJECT_FIELDS[fam])))
+    else:
+      priors.append((ps, vary_spec(rng, s), None))
+  return T, ph, s, (site, target), priors
+
+
+LAST_TRACE = [[]]       # outcomes of the earlier offers of the latest ReuseCase
+
+
+class ReuseCase(Case):
+  """A typed container with ONE placeholder whose object was offered to other
+  typed fields before (every offer is made again when the case is rebuilt)."""
+  reused = True
+
+  def __init__(self, plan, entry):
+    T, self.ph, self.s, self.final, self.priors = plan
+    self.trace = []
+    super().__init__(T, TT.ALL, False, False, entry)
+
+  def make(self):
+    ph = TT.build(self.ph)
+    self.trace = LAST_TRACE[0] = []
+    for site, s, target in self.priors:
+      try:
+        bind(site, ph, s, target)
+        self.trace.append('accepted')
+      except REFUSAL:                          # the caller handles a refusal
+        self.trace.append('refused')
+    self.record['offered_before'] = [
+        [site, TT.show_spec(s) if s else '.'.join(target), out]
+        for (site, s, target), out in zip(self.priors, self.trace)]
+    self.record['final_site'] = self.final[0]
+    self.v = bind(self.final[0], ph, self.s, self.final[1])
+    if self.entry == 'pg.template':
+      self.t = pg.template(self.v, self.where)
+    else:
+      self.t = pg.hyper.ObjectTemplate(self.v, where=self.where)
+    self.before = snap(self.v)
+
+
 def check_snapshot(ctx, cs, op, detail=''):
   """The template must look exactly as before the call."""
   ctx.counters['snapshot_checks'] += 1
@@ -359,15 +568,16 @@ def check_snapshot(ctx, cs, op, detail=''):
 # Spec of the template vs the space of the description.
 # --------------------------------------------------------------------------
 
-def spec_mismatch(space, spec):
-  """None, or (kind of decision point, what differs)."""
+def spec_mismatch(space, spec, locs=True):
+  """None, or (kind of decision point, what differs); locs=False: how the
+  location of a decision point is spelled is not compared."""
   if not isinstance(spec, pg.geno.Space):
     return ('space', 'not a Space')
   if len(spec.elements) != len(space['elems']):
     return ('space', f"{len(spec.elements)} elements, expected {len(space['elems'])}")
   for e, s in zip(space['elems'], spec.elements):
     k = G.kind(e)
-    if str(s.location) != e['loc']:
+    if locs and str(s.location) != e['loc']:
       return (k, f"location {str(s.location)!r}, expected {e['loc']!r}")
     if s.name != e['name']:
       return (k, f"name {s.name!r}, expected {e['name']!r}")
@@ -387,7 +597,7 @@ def spec_mismatch(space, spec):
       if facts != want:
         return (k, f'(k, n, distinct, sorted) = {facts}, expected {want}')
       for c, cs in zip(e['cands'], s.candidates):
-        r = spec_mismatch(c, cs)
+        r = spec_mismatch(c, cs, locs)
         if r:
           return r
   return None
@@ -397,7 +607,7 @@ def check_spec(ctx, cs):
   ctx.counters['spec_checks'] += 1
   try:
     spec = cs.t.dna_spec()
-    bad = spec_mismatch(cs.space, spec)
+    bad = spec_mismatch(cs.space, spec, locs=not cs.key_class)
     size = spec.space_size
   except Exception as e:  # pylint: disable=broad-except
     if not is_lib_error(e):
@@ -519,7 +729,10 @@ def decode(ctx, cs, dna, m, op='decode'):
   except Exception as e:  # pylint: disable=broad-except
     if not is_lib_error(e) and not isinstance(e, (ValueError, TypeError, KeyError, AttributeError)):
       raise
-    ctx.violation('decode-raised', f'decode:{cs.feature()}',
+    # unusual dict keys: one key per class of key, whether decode raises or
+    # returns a value of another shape
+    ctx.violation(*(('decode-wrong', cs.feature()) if cs.key_class else
+                    ('decode-raised', f'decode:{cs.feature()}')),
                   f'decode of the valid DNA {dna!r} (decisions {list(m)!r}) raised:\n{tb(e)}',
                   cs.record)
     return False, None
@@ -680,10 +893,17 @@ def check_dna(ctx, cs, m, j):
   # -- equals the reference decode (shape, values, types)
   c['reference_compared'] += 1
   same = c1 == exp
+  if cs.ref_paths:
+    c['reference_decode_checks'] += 1
+    if any(TT.canon_get(exp, p) in FALSY_FORMS for p in cs.ref_paths):
+      c['reference_falsy_checks'] += 1
   if not same:
-    ctx.violation('decode-differs', 'decode:' + cs.region(c1, exp),
+    ctx.violation(*(('decode-wrong', cs.feature()) if cs.key_class else
+                    ('decode-differs', 'decode:' + cs.region(c1, exp))),
                   f'decode({dna!r}) = {pg.format(d1, compact=True)[:700]}\n'
                   f'reference: {TT.show(exp_desc)[:700]}', cs.record)
+    if cs.key_class:
+      return False                     # one key per defect of this class
   # -- no placeholder left, except those the filter excluded
   c['placeholder_checks'] += 1
   left = sorted(map(repr, TT.canon_placeholders(c1)))
@@ -847,7 +1067,8 @@ def check_dna(ctx, cs, m, j):
   if not check_snapshot(ctx, cs, 'materialize'):
     return False
   pts = G.walk(cs.space, m)
-  if j == 0 and all(p.id for p in pts) and len({p.id for p in pts}) == len(pts):
+  if (j == 0 and not cs.key_class and all(p.id for p in pts)
+      and len({p.id for p in pts}) == len(pts)):
     c['materialize_dict_checks'] += 1
     params = {p.id: p.value for p in pts}
     try:
@@ -1522,12 +1743,71 @@ def _random_case(rng):
   return T, W, plain, bad, kind
 
 
+KEY_CLASSES = {
+    'empty': [''],
+    'unbalanced-bracket': ['a[', 'x]', '[', 'k]['],
+    'path-syntax': ['a.b', 'k[0]', '[0]', '.', 'a.', '[=0/2]', 'c.d.e'],
+    'unusual-char': [' ', '$', '0', '\u00e4', 'a b', "a'b", 'a=b', '-1'],
+}
+
+
+def rename_keys(T, rng, key_class):
+  """A copy of T in which one or two keys of dicts without a value spec
+  (mostly keys on the way to a placeholder) are spelled with keys of the
+  class; None when T has no such dict."""
+  T = json.loads(json.dumps(T))
+  sites = []
+
+  def walk(node):
+    if node['t'] == 'dict' and not node.get('specs'):
+      for n, (_, c) in enumerate(node['items']):
+        sites.append((node, n, TT.has_placeholder(c)))
+    if node['t'] == 'choice':
+      for c in node['cands']:
+        walk(c)
+    elif node['t'] != 'custom':
+      for _, c in TT.children(node):
+        walk(c)
+  walk(T)
+  hot = [x for x in sites if x[2]]
+  done = 0
+  for _ in range(rng.randint(1, 2)):
+    pool = hot if hot and rng.random() < 0.8 else sites
+    if not pool:
+      break
+    node, n, _ = rng.choice(pool)
+    used = [k for k, _ in node['items']]
+    free = [k for k in KEY_CLASSES[key_class] if k not in used]
+    if free:
+      node['items'][n][0] = rng.choice(free)
+      done += 1
+  return T if done else None
+
+
+def reference_case(ctx, rng):
+  """A template with value references (kept small, see random_case)."""
+  for _ in range(8):
+    T = TT.ref_template(TT.State(rng, tags=rng.random() < 0.5))
+    if nodes(T) <= ctx.params['max_nodes']:
+      break
+  return T
+
+
+FALSY_FORMS = {('leaf', 'NoneType', 'None'), ('leaf', 'int', '0'),
+               ('leaf', 'bool', 'False'), ('leaf', 'float', '0.0'),
+               ('leaf', 'float', '-0.0'), ('leaf', 'str', "''"), ('list', ()),
+               ('dict', ())}
+
+
 def run_case(ctx, i):
   rng = ctx.rng
   c = ctx.counters
   part = my_part(ctx)
   plain = bad = False
   grid = my_grid(ctx)
+  plan = key_class = loc_T = None
+  j = i - len(part) - len(grid)
+  n_rand, n_refs = int(ctx.params['random']), int(ctx.params.get('refs', 0))
   if i < len(part):
     c['family_cases'] += 1
     T, _ = TT.from_space(part[i], rng, tags=True)
@@ -1537,19 +1817,61 @@ def run_case(ctx, i):
   elif i < len(part) + len(grid):
     c['grid_cases'] += 1
     T, W, kind = grid[i - len(part)], TT.ALL, 'grid'
-  else:
+  elif j < n_rand:
     c['random_cases'] += 1
     T, W, plain, bad, kind = random_case(ctx, rng)
+  elif j < n_rand + n_refs:
+    c['reference_cases'] += 1
+    T, W, kind = reference_case(ctx, rng), TT.ALL, 'refs'
+    if rng.random() < 0.25:
+      W = TT.random_where(rng, T)
+      if not TT.refs_ok(T, W):
+        W = TT.ALL
+  elif j < n_rand + n_refs + int(ctx.params.get('reuse', 0)):
+    c['reuse_cases'] += 1
+    plan = reuse_plan(rng)
+    T, W, kind = plan[0], TT.ALL, 'reuse'
+  else:
+    # dict keys that are not identifiers: '' / brackets / path syntax / others
+    c['key_cases'] += 1
+    key_class = rng.choice(sorted(KEY_CLASSES))
+    for _ in range(8):
+      loc_T, W, plain, _, kind = random_case(ctx, rng)
+      T = rename_keys(loc_T, rng, key_class) if kind in ('rendered', 'evolve') else None
+      if T is not None:
+        break
+    else:
+      return
+    kind = 'keys'
   entry = rng.choice(['pg.template', 'pg.template', 'ObjectTemplate'])
+  if kind == 'refs':
+    entry = 'pg.template'        # ObjectTemplate alone leaves derived values in place
   flags = None
-  if (not plain and not bad and kind != 'grid'
+  if (not plain and not bad and kind not in ('grid', 'reuse')
       and rng.random() < ctx.params.get('flagged', 0.15) and not TT.misfits(T)):
     flags = random_flags(T, rng)
   try:
-    cs = Case(T, W, plain, bad, entry, flags)
+    cs = (ReuseCase(plan, entry) if plan
+          else Case(T, W, plain, bad, entry, flags, key_class, loc_T))
   except Exception as e:  # pylint: disable=broad-except
     if not is_lib_error(e):
       raise
+    if plan and isinstance(e, REFUSAL):
+      # The container refuses the placeholder object: no template. (Whether a
+      # placeholder that was offered elsewhere before must still be accepted is
+      # left open: a field may refuse one that is bound to another spec.)
+      c['binding_refusal_checks'] += 1
+      c['reuse_final_refused'] += 1
+      fits = not TT.misfits(T)
+      c['reuse_final_refused:' + ('fits' if fits else 'misfit')] += 1
+      if fits and 'accepted' not in LAST_TRACE[0]:
+        # ... but every earlier offer was refused: the placeholder is bound to
+        # no spec, its range fits the field (cf. build-raised for fresh ones)
+        ctx.violation('build-raised', 'reused-placeholder',
+                      f'offered before: {plan[4]!r} -> {LAST_TRACE[0]!r}; then refused by '
+                      f'{plan[3][0]} although its range fits:\n{tb(e)}',
+                      {'template': TT.show(T), 'final_site': plan[3][0]})
+      return
     if (bad or TT.misfits(T)) and isinstance(e, (ValueError, TypeError)):
       # A placeholder whose range is not inside the value spec of its field
       # (a manyof whose number of choices the List spec can never hold, a
@@ -1571,6 +1893,21 @@ def run_case(ctx, i):
     except Exception:  # pylint: disable=broad-except
       return
   c['kind:' + kind] += 1
+  if plan:
+    c['reuse_templates'] += 1
+    c['reuse_final:' + plan[3][0]] += 1
+    for (site, _, _), out in zip(cs.priors, cs.trace):
+      c['reuse_offers'] += 1
+      c['reuse_offer_' + out] += 1
+      c['reuse_offer:' + site] += 1
+    if cs.misfit:
+      c['reuse_misfit_templates'] += 1
+  if key_class:
+    c['key_templates'] += 1
+    c['key_class:' + key_class] += 1
+  if cs.has_ref:
+    c['reference_templates'] += 1
+    c['reference_sites'] += len(TT.ref_sites(T, W))
   if flags:
     c['flagged_templates'] += 1
     c['flagged:' + flags[0]] += 1
